@@ -98,24 +98,7 @@ func runC16(cx *Ctx, r *Report) {
 			// value marshalled
 			val := p.Site.Common().Args[1]
 			marshalled := marshalSource(val)
-			ok := false
-			why := ""
-			for _, cf := range callFacts(p.Site.Block()) {
-				_, name := calleeName(cf.Call.Common())
-				if strings.HasSuffix(name, "Params.Validate") && cf.Outcome == "err==nil" {
-					recv := cf.Call.Common().Args
-					var rv ssa.Value
-					if cf.Call.Common().IsInvoke() {
-						rv = cf.Call.Common().Value
-					} else if len(recv) > 0 {
-						rv = recv[0]
-					}
-					if marshalled != nil && rv != nil && sameValue(stripAddr(marshalled), stripAddr(rv)) {
-						ok = true
-						why = "Validate() == nil on the marshalled value dominates the Set"
-					}
-				}
-			}
+			ok, why := cx.validatedAt(p.Site.Block(), marshalled, 0)
 			r.check(ok, "validated-writer", key, pos, why+" in "+shortFn(f), "params key written in "+shortFn(f)+" without a dominating Validate() == nil on the stored value")
 		}
 	}
@@ -151,6 +134,55 @@ func marshalSource(v ssa.Value) ssa.Value {
 		}
 	}
 	return nil
+}
+
+// validatedAt: Validate() == nil on the very value v dominates block b; when v is
+// a parameter of b's function (a write helper split off the validating setter),
+// the same must hold for the bound argument at every call site.
+func (cx *Ctx) validatedAt(b *ssa.BasicBlock, v ssa.Value, depth int) (bool, string) {
+	if v == nil || depth > 3 {
+		return false, ""
+	}
+	for _, cf := range callFacts(b) {
+		_, name := calleeName(cf.Call.Common())
+		if strings.HasSuffix(name, "Params.Validate") && cf.Outcome == "err==nil" {
+			recv := cf.Call.Common().Args
+			var rv ssa.Value
+			if cf.Call.Common().IsInvoke() {
+				rv = cf.Call.Common().Value
+			} else if len(recv) > 0 {
+				rv = recv[0]
+			}
+			if rv != nil && sameValue(stripAddr(v), stripAddr(rv)) {
+				return true, "Validate() == nil on the marshalled value dominates the Set"
+			}
+		}
+	}
+	par, isPar := stripAddr(v).(*ssa.Parameter)
+	if !isPar {
+		return false, ""
+	}
+	fn := par.Parent()
+	idx := -1
+	for i, q := range fn.Params {
+		if q == par {
+			idx = i
+		}
+	}
+	callers := cx.CallersOf(fn)
+	if len(callers) == 0 || idx < 0 {
+		return false, ""
+	}
+	for _, cs := range callers {
+		cc := cs.Site.Common()
+		if cc.IsInvoke() || cc.StaticCallee() != fn || idx >= len(cc.Args) {
+			return false, ""
+		}
+		if ok, _ := cx.validatedAt(cs.Site.Block(), cc.Args[idx], depth+1); !ok {
+			return false, ""
+		}
+	}
+	return true, fmt.Sprintf("Validate() == nil on the argument dominates each of the %d call sites of the write helper", len(callers))
 }
 
 // stripAddr: &local → the local's pure expression root.
@@ -743,10 +775,18 @@ func (cx *Ctx) decBoundFacts() map[string][]FactT {
 func (cx *Ctx) rateBounds(r *Report) {
 	m := cx.decBoundFacts()
 	re := regexp.MustCompile(`^math\.LegacyDec\.(GT|GTE|LT|LTE)\(‹Params›\.(\w+)(#0)?, (math\.LegacyZeroDec\(\)|math\.LegacyOneDec\(\)|math\.LegacyNewDec\((0|1)\))\)$`)
+	reSign := regexp.MustCompile(`^math\.LegacyDec\.(IsNegative|IsPositive)\(‹Params›\.(\w+)(#0)?\)$`)
 	for _, fq := range sortedKeys(m) {
 		field := fq[strings.LastIndex(fq, ".")+1:]
 		lower, upper := "", ""
 		for _, ft := range m[fq] {
+			if sm := reSign.FindStringSubmatch(ft.Text); sm != nil && sm[2] == field {
+				// canonical sign tests: x.LT(0) is IsNegative(x), x.GT(0) is IsPositive(x)
+				if sm[1] == "IsNegative" && !ft.Holds || sm[1] == "IsPositive" && ft.Holds {
+					lower = ft.String()
+				}
+				continue
+			}
 			mm := re.FindStringSubmatch(ft.Text)
 			if mm == nil || mm[2] != field {
 				continue
